@@ -20,7 +20,10 @@ RULE = ("Hypothesis constructs a script model (all constructs incl. arrays, loop
 ASSUMPTIONS = ["the canonical rendering loads (otherwise the case is discarded and counted)"]
 BUDGET = {"quick": (1500, 4), "thorough": (40000, 16)}
 
-_CMT = st.text(alphabet=st.one_of(st.characters(min_codepoint=32, max_codepoint=126), st.sampled_from(["\t", "é", "#", '"', " "])), max_size=12)
+_CMT_CHARS = st.text(alphabet=st.one_of(st.characters(min_codepoint=32, max_codepoint=126),
+                                        st.sampled_from(["\t", "\u00e9", "#", '"', " ", "\x0b", "\x0c", "\x1c", "\x1d", "\x1e", "\x85", "\u2028", "\u2029", "\xa0"])), max_size=12)
+# (comments with statement-looking text after a character that some libraries treat as a line break)
+_CMT = st.one_of(_CMT_CHARS, _CMT_CHARS, st.sampled_from([" Vac | 1", "\x0cVac | 1", "\u2028Vac | 2", "\x85int x = 1", "\x0b\x1cMeasureX | 3", " a \x1eG(1) | 0"]))
 
 
 @st.composite
